@@ -8,6 +8,10 @@ use crate::engine::{run_replay_file, strict_replay, Expect, Opts, Report, Sub};
 pub mod c01;
 pub mod c02;
 pub mod c04;
+pub mod c05;
+pub mod c06;
+pub mod c08;
+pub mod dictops;
 pub mod common;
 
 #[derive(Deserialize, Clone, Debug)]
@@ -97,6 +101,9 @@ pub fn run(id: &str, opts: &Opts) -> Option<Report> {
         "C02" => c02::run_c02(opts),
         "C03" => c02::run_c03(opts),
         "C04" => c04::run(opts),
+        "C05" => c05::run(opts),
+        "C06" => c06::run(opts),
+        "C08" => c08::run(opts),
         _ => return None,
     })
 }
@@ -106,6 +113,21 @@ pub fn replay(id: &str, path: &Path) -> Option<i32> {
         "C01" => c01::replay(path),
         "C02" | "C03" => c02::replay(id, path),
         "C04" => c04::replay(path),
+        "C05" => c05::replay(path),
+        "C06" => c06::replay(path),
+        "C08" => c08::replay(path),
         _ => None,
+    }
+}
+
+/// Cross-build exchange entry points (`--xbuild-emit` / `--xbuild-consume`).
+pub fn xbuild(id: &str, emit: bool, dir: &Path, seed: u64, n: u32) -> Result<(), String> {
+    match (id, emit) {
+        ("C05", true) => c05::xbuild_emit(dir, seed, n),
+        ("C05", false) => {
+            let r = c05::xbuild_consume(dir)?;
+            std::fs::write(dir.join("result.json"), serde_json::to_vec_pretty(&r).unwrap()).map_err(|e| e.to_string())
+        }
+        _ => Err(format!("no cross-build exchange for {id}")),
     }
 }
